@@ -224,7 +224,7 @@ impl C06 {
         let content = if large {
             0
         } else if deep {
-            [0usize, 7][c.free(2, "leaf-content")]
+            [0usize, 2][c.free(2, "leaf-content")]
         } else {
             c.free(8, "leaf-content")
         };
@@ -668,7 +668,7 @@ impl CaseDriver for C06 {
                 "GDS libraries of 1..3 levels (chain top -> ... -> leaf, optionally the top also placing the leaf), structs listed in every order; each reference SREF or AREF x all 8 Manhattan orientations (free); leaf content = one of {KINDS:?} or all seven together (free); costed (deviation bound {}): STRANS spelling (absent / explicit Some(0.0) / present-but-default), offsets {LOCS:?}, array cols x rows in {{1,2,3}}^2, lattice (axis-parallel, rotated with the angle, negative pitch, skewed, columns along y), large arrays 181x181 / 200x200 / 1x32767 / 32767x1 (two-level libraries only), a label inside the leaf shape. Non-trivial = has at least one reference.",
                 self.bound(tier)
             ),
-            Part::Deep => "4-level chains, structs in every one of the 24 listing orders, every reference SREF or AREF x 8 orientations (free), leaf content CW rectangle or all seven kinds; the costed alphabet of [hier] with deviation bound 1.".into(),
+            Part::Deep => "4-level chains, structs in every one of the 24 listing orders, every reference SREF or AREF x 8 orientations (free), leaf content CW rectangle or L-polygon; the costed alphabet of [hier] with deviation bound 1.".into(),
             Part::Label => format!(
                 "one cell: shape kind (7) x label position {{inside, on an edge, on a vertex, just outside, far outside}} x label on the same / another layer x second shape {{none, same layer overlapping, other layer, same layer other datatype}} x second label {{none, same point listed before, same point listed after, inside with another string}} (all free); costed (bound {}): strings (mixed / upper / single-letter case pairs), element order (shapes first, labels first, interleaved), a diagonal path on the labels' layer. Non-trivial = every case (each has a label).",
                 self.bound(tier)
